@@ -97,7 +97,7 @@ func c08Check(r *vkit.Run, in c08Input) bool {
 	in.Text = q.Text()
 	var res logResult
 	if strings.HasPrefix(in.Times, "perm:") {
-		res = evalLogOn(newEngine(mockq.NewUnsorted(data)), in.Text, 0, 1<<40, in.Limit)
+		res = evalLogOn(newEngine(mockq.NewUnsorted(data)), in.Text, 0, 1<<50, in.Limit)
 	} else {
 		res = evalLog(data, logqlengine.QuerierCapabilities{}, in.Text, in.Limit)
 	}
@@ -236,6 +236,25 @@ func c08Run(r *vkit.Run) {
 		}
 		r.State(fmt.Sprint(s))
 	}
+	// many records: a non-positive limit returns all of them, however many (default caps such as 100 or 1000 are not "all")
+	for _, n := range []int{101, 1001, 5003} {
+		seq := make([]int, n)
+		for i := range seq {
+			seq[i] = (i*7 + i/13) % len(c08Recs)
+		}
+		for _, lim := range []int{0, -1, 100, 1000, n - 1, n, n + 1} {
+			idx++
+			if !r.Mine(idx) || r.Stop() {
+				continue
+			}
+			for _, qi := range []int{0, 3} {
+				if c08Check(r, c08Input{Recs: seq, Times: "inc", Query: qi, Limit: lim}) {
+					r.NonTrivial()
+				}
+			}
+		}
+		r.GlobalState(fmt.Sprintf("large-%d", n))
+	}
 	// delivery out of time order (a container's own log need not be time-ordered): every permutation of the
 	// timestamps of one-stream and two-stream data sets; no limit (which records a limit picks from unordered
 	// storage is not defined by the property)
@@ -278,7 +297,7 @@ func c08Run(r *vkit.Run) {
 			r.State(fmt.Sprint(s, pm))
 		}
 	}
-	r.Note("bounds", fmt.Sprintf("all record sequences of length <=%d over an 8-record alphabet with quoting-sensitive label values (plus longer sets) x 3 timestamp patterns (increasing, all equal, pairwise ties) x %d label-rewriting queries x limits {-5,-1,0,1,2,N-1,N,N+1}; every permutation of the delivery order of 3-5 records of one or two streams (no limit)", maxLen, len(c08Q)))
+	r.Note("bounds", fmt.Sprintf("all record sequences of length <=%d over an 8-record alphabet with quoting-sensitive label values (plus longer sets) x 3 timestamp patterns (increasing, all equal, pairwise ties) x %d label-rewriting queries x limits {-5,-1,0,1,2,N-1,N,N+1}; every permutation of the delivery order of 3-5 records of one or two streams (no limit); data sets of 101, 1001 and 5003 records under limits {0,-1,100,1000,N-1,N,N+1}", maxLen, len(c08Q)))
 }
 
 func c08Replay(r *vkit.Run, v vkit.Violation) *vkit.Violation {
